@@ -19,7 +19,7 @@ EXTRA = {
  'C06': " The cursor counts bits of the value: the move is bounded by input.len(), open-bitstr starts at the constant 0 (decided from the constant's initialiser), and a read advances the current offset by len() of the peeked slice with an overflow check.",
  'C10': " Also: heap cells allocated while a source is built are a rolled-back resource; program code runs at build time only in a sealed meta context or after the source was accepted (user-defined immediate words are a listed known finding); a halted program's run-time stacks are dropped.",
  'C11': " Also: the floor of a meta context is the current depth (nested blocks inheriting the outer floor is a listed known finding, pinned by an existing test); nothing permutes the dictionary, so the purge keeps the order of surviving constants; an instruction that patches itself at run time (the `late` stub) does so for good only outside meta evaluation. A block nested in another emits only what it left itself. Late binding refuses a build-time (immediate) word before it picks an instruction, so build-time words are run by the builder only.",
- 'C15': " Also: a user-defined immediate word returns to the end of the code, not into the half-built program, and the builder's ip is restored afterwards. eval of a further source runs what is still pending before the new code (the entry ip is the current one unless the program has ended).",
+ 'C15': " Also: a user-defined immediate word returns to the end of the code, not into the half-built program, and the builder's ip is restored afterwards. A failed run under eval is left stopped at the failing instruction; a context never starts at the ip of the enclosing one (which is the instruction in flight when a host word calls eval).",
  'C16': " R3 (necessary conditions of print/read-back visible in the code): radix formats are applied to an unsigned magnitude; every radix the printer emits for integers has a literal form in the lexer; the collected digits reach from_str_radix only behind a test of that text (it accepts a sign of its own).",
  'C17': " Also: the source a token belongs to is found by identity of its buffer, not by comparing source texts. A buffer is registered once; the cut of the source registry at the close of a meta block spares every buffer a pending input is still reading; every drive function forgets the previous failure before its first step; line and column are plain character counts.",
 }
